@@ -131,6 +131,11 @@ static struct G {
   Mtx mtx[NMTX];
   Sem sem[NSEM];
   Guard guard[NGUARD];
+  // mc_watch: a harness callback run by thread watch_tid right before its watch_nth-th access to watch_addr
+  const volatile void* watch_addr;
+  void (*watch_fn)(void*);
+  void* watch_arg;
+  int watch_tid, watch_nth;
   uint64_t wver;
   uint64_t steps;
   uint64_t now_ns;
@@ -738,9 +743,26 @@ static inline void sched_point(Thr* me, int kind, const volatile void* addr) {
   reschedule(me);
 }
 
+// Directed placement of another thread's action inside a window that contains no user code: the harness names an
+// address, a thread and an ordinal; right before that thread's n-th access to the address the callback runs on it
+// (typically: release a second thread and block until that thread's action is complete). The accesses counted are
+// those of the code under test; the callback itself may use every harness service.
+extern "C" void mc_watch(const volatile void* addr, int tid, int nth, void (*fn)(void*), void* arg) {
+  g.watch_addr = addr;
+  g.watch_tid = tid;
+  g.watch_nth = nth;
+  g.watch_fn = fn;
+  g.watch_arg = arg;
+}
+
 extern "C" void mc_pre(int kind, const volatile void* addr, unsigned size, int order) {
   Thr* me = self_thr;
   if (!me) return;
+  if (g.watch_fn && addr == g.watch_addr && me->id == g.watch_tid && --g.watch_nth <= 0) {
+    void (*fn)(void*) = g.watch_fn;
+    g.watch_fn = 0;
+    fn(g.watch_arg);
+  }
   me->order = order;
   me->pc = __builtin_return_address(0);
   sched_point(me, kind, addr);
@@ -1048,6 +1070,15 @@ extern "C" int mc_live_threads(void) {
   int n = 0;
   for (int i = 0; i < g.nthr; i++)
     if (g.thr[i].state != TS_FINISHED && g.thr[i].state != TS_NONE) n++;
+  return n;
+}
+
+// modelled threads other than the caller that are blocked inside a futex wait right now (a harness uses it to
+// state a precondition such as "every worker is parked" about the instant of a call it is about to make)
+extern "C" int mc_futex_waiters(void) {
+  int n = 0;
+  for (int i = 0; i < g.nthr; i++)
+    if (&g.thr[i] != self_thr && g.thr[i].state == TS_BLOCKED && g.thr[i].pend_kind == MC_K_FUTEX_WAIT) n++;
   return n;
 }
 
